@@ -277,6 +277,36 @@ def level_finding(level, tails):
   return tails == 1 and level <= 0.5
 
 
+def refit_prelude(model, df, iroas=False):
+  """A re-fit is a fit: the object is first fitted on a different frame of the same layout and asked for every report
+  (so that anything it memoises is filled), then fitted on the frame under test. Returns True when the prelude ran."""
+  import numpy as np
+  if int(abs(float(df['response'].sum())) * 7 + len(df)) % 2:
+    return False
+  d2 = df.copy()
+  k = np.arange(len(d2))
+  d2['response'] = d2['response'].astype(float) * 3.0 + (k % 5) ** 2
+  if 'cost' in d2.columns:
+    d2['cost'] = d2['cost'].astype(float) * 2.0 + (k % 3)
+  try:
+    if iroas:
+      model.fit(d2)
+      for call in (lambda: model.summary(nsims=40, random_state=0),
+                   lambda: model.estimate_pointwise_and_cumulative_effect(metric='tbr_response'),
+                   lambda: model.estimate_pointwise_and_cumulative_effect(metric='tbr_cost')):
+        try:
+          call()
+        except Exception:  # pylint: disable=broad-except
+          pass
+    else:
+      model.fit(d2, 'response')
+      model.summary(report='all')
+      model.causal_cumulative_distribution()
+  except Exception:  # pylint: disable=broad-except
+    pass
+  return True
+
+
 def check_tbr(mods, c, exp, rows, meta, uc, combos, with_cost, int_dtype, matched=False):
   """Fits the real TBR on one frame; returns a list of (clause, detail, finding_key, combo)."""
   pd, np, st, tbr = mods['pd'], mods['np'], mods['st'], mods['tbr']
@@ -285,6 +315,7 @@ def check_tbr(mods, c, exp, rows, meta, uc, combos, with_cost, int_dtype, matche
   ndays = c['ntest'] + (c['ncool'] if uc else 0)
   try:
     m = tbr.TBR(use_cooldown=uc)
+    refit_prelude(m, df)
     m.fit(df, 'response')
     dist = m.causal_cumulative_distribution()
     got_df = float(dist.args[0])
